@@ -7,7 +7,7 @@
 (* BuilderBase.call_op / GraphBuilder:                                                           *)
 (*   Formal/Binding/PromDt   schema partition + type-variable binding of _cast_inputs            *)
 (*                           (signatures are READ from the real onnx schemas: IOEnv.C18_SIGS)    *)
-(*   Promote                 _get_or_create_constant: root cache keyed (value, dtype), names     *)
+(*   Promote                 _get_or_create_constant: root cache keyed (type, repr, dtype), names *)
 (*   AdaptArgs               _input_to_ir_value incl. the dynamic CastLike helper node           *)
 (*   OutNames / NodeName     _adapt_outputs / _generate_node_name / _qualify_* (scope stack)     *)
 (*   Tk                      does _inference leave a type on the outputs                         *)
@@ -129,8 +129,9 @@ ArgT(sig, args, i, k) ==
     [] OTHER -> NoT
 ArgTs(sig, args, k) == [i \in 1..Len(args) |-> ArgT(sig, args, i, k)]
 
-\* _get_or_create_constant: cache keyed by (value under Python equality, dtype); returns <<cache', name>>
-CKey(l, p) == <<L[l].shape, L[l].data, IF p.sfx = "" THEN "none" ELSE p.dt>>
+\* _get_or_create_constant: cache keyed by (Python type name and repr of the literal - element-wise for sequences -, dtype):
+\* 2 and 2.0 (or 1 and True) promoted to one dtype are two entries / two initializers; returns <<cache', name>>
+CKey(l, p) == <<L[l].shape, L[l].py, L[l].data, IF p.sfx = "" THEN "none" ELSE p.dt>>
 Promote(cch, l, p) ==
   LET key == CKey(l, p)
       hit == {j \in 1..Len(cch) : cch[j].key = key}
